@@ -122,10 +122,11 @@ check_version(JSON_Object *meta)
 		return -1;
 	}
 
-	int version = (int) json_number(version_val);
+	/* Don't truncate: 3.9 is not version 3 */
+	double version = json_number(version_val);
 
-	if (version != OVNI_METADATA_VERSION) {
-		err("metadata version mismatch %d (expected %d)",
+	if (version != (double) OVNI_METADATA_VERSION) {
+		err("metadata version mismatch %g (expected %d)",
 				version, OVNI_METADATA_VERSION);
 		return -1;
 	}
